@@ -80,13 +80,13 @@ MORE = {
  "C08": "immutability census of *types.Item (no store through an Item that was not allocated locally)",
  "C09": "length facts through closure-bound arities (free variable → binding → construction-site constant); guard check that identifier nodes are built from tokens checked to be identifiers; position-vs-length guard of the EOF token; list-member loops run to exhaustion unless an error object is returned",
  "C10": "presence→object-tag agreement of the attribute→object conversion (case chains and (predicate, constructor) tables; branch facts incl. short-circuit phis); value-origin tracing of every S/N slot store in all four mapper directions (package-local helpers looked into); must-non-nil analysis (make/literal/append/phi/helper returns/field invariants) of the type-carrying field per SDK member case and per object kind; aliases: lossless keys, ownership of conversion results",
- "C12": "canonicaliser recognition restricted to math/big; per-key-list text-order findings; boundary sites keyed by kind and operand origin (value-origin tracing)",
- "C13": "error-class dataflow for the key derivation's errors; interprocedural dominance of success returns by the key derivation; composition forms (Join, concatenation, multi-verb Sprintf); guarded-write census of Table.AttributesDef against operations other than table creation; alias of the lossless-key census; census of byte-slice→text conversions on the key derivation path",
+ "C12": "canonicaliser recognition restricted to math/big; per-key-list text-order findings; boundary sites keyed by kind and operand origin (value-origin tracing); who-may-write census of Number.Value",
+ "C13": "error-class dataflow for the key derivation's errors; interprocedural dominance of success returns by the key derivation; composition forms (Join, concatenation, multi-verb Sprintf); guarded-write census of Table.AttributesDef against operations other than table creation; alias of the lossless-key census; census of byte-slice→text conversions on the key derivation path (followed to their sinks)",
  "C14": "shared package-level results; shallow element copies (copy / append(dst, src...) on slices of references)",
  "C16": "operand-evaluation dominance per node evaluator (no short-circuit before a non-error result), member loops; decision table of the write-request validator",
  "C17": "error-class dataflow (every returnable error value classified nil/sdk/engine/bare/sentinel/configured through helpers, phis and the mapper); pairwise dominance order of the checks per operation; events collected through helpers only one client has; aliases: verbatim scalars, type-field non-nilness, batch validators",
- "C18": "closed state model (field census against a confirmed table; coherence of derived fields by post-dominance of rewrites over the writers of their sources); escape analysis of loop-variable (and loop-variable field) addresses under pre-1.22 semantics; aliases of the attribute-definition guard and of the I1 path-case analysis (item count)",
- "C19": "field-forwarding table KeysAndAttributes→GetItemInput; error-classification guard on the unprocessed edge; accumulation analysis in the function that holds the key loop",
+ "C18": "closed state model (field census against a confirmed table; coherence of derived fields by post-dominance of rewrites over the writers of their sources); escape analysis of loop-variable (and loop-variable field) addresses under pre-1.22 semantics; aliases of the attribute-definition guard and of the I1 path-case analysis (item count); must-pass-through of the store into Table.Indexes for index creation",
+ "C19": "field-forwarding table KeysAndAttributes→GetItemInput; error-classification guard on the unprocessed edge; accumulation analysis in the function that holds the key loop; allocation-site analysis of every slice stored under a table name (both batch operations); inline form of the batch-write handler (CFG exploration under the fact that the dispatch failed, the recording as a barrier)",
  "C20": "decision table of the native/language dispatch (unknown tests enumerated both ways); closed state model of the native interpreter; registry accesses through selector helpers; unconditional propagation (only loop progress and panicking guards may govern the per-table store)",
 }
 
